@@ -18,12 +18,20 @@ Definition flag (b : bytes) : bool := bytes_eqb b [x31].
 
 Record impl_obs := { i_res : bytes; i_got : bytes; i_log : list logent }.
 Record mach := { vals : list bytes; nodes : list node; ops : list fop;
-                 envl : list (N * (bytes * option N));
+                 envl : list (bytes * N * (bytes * option N));      (* (loop path key, oracle id) -> value *)
                  jobsr : list (job fsink * option impl_obs);      (* newest first *)
                  curlog : list logent }.
 
-Definition env_of (l : list (N * (bytes * option N))) : N -> bytes * option N :=
-  fun i => match find (fun p => N.eqb (fst p) i) l with Some (_, r) => r | None => ([], None) end.
+(* the enclosing iteration indices, innermost first, as the harness writes them: "2.0." *)
+Definition path_key (p : list nat) : bytes := concat (map (fun k => dec (N.of_nat k) ++ [x2e]) p).
+Definition env_of (l : list (bytes * N * (bytes * option N))) : list nat -> N -> bytes * option N :=
+  fun path i => let key := path_key path in
+                match find (fun p => N.eqb (snd (fst p)) i && bytes_eqb (fst (fst p)) key) l with
+                | Some (_, r) => r
+                | None => ([], None)
+                end.
+Definition benv_of l : list nat -> N -> bool := fun path i => flag (fst (env_of l path i)).
+Definition nenv_of l : list nat -> N -> nat := fun path i => numn (fst (env_of l path i)).
 
 Definition v (n : nat) (m : mach) : bytes := nth n (vals m) [].
 Definition dropv (n : nat) (m : mach) : list bytes := skipn n (vals m).
@@ -49,6 +57,14 @@ Definition step (m : mach) (ins : bytes) : mach :=
         let k := numn (v 0 m) in push_node m (dropv 1 m) k (Flush (popn k m))
       else if Byte.eqb op x52 (* R  html err *) then push_node m (dropv 2 m) 0 (Raw (v 1 m) (optn (v 0 m)))
       else if Byte.eqb op x4e (* N *) then push_node m (vals m) 0 Nop
+      else if Byte.eqb op x49 (* I  kind id k nThen nElse : the then-statements, then the else-statements, are on the stack *) then
+        let nt := numn (v 1 m) in let ne := numn (v 0 m) in
+        let c := if flag (v 4 m) then CCase (num (v 3 m)) (numn (v 2 m)) else CBool (num (v 3 m)) in
+        {| vals := dropv 5 m;
+           nodes := If c (rev (firstn nt (skipn ne (nodes m)))) (rev (firstn ne (nodes m))) :: skipn (nt + ne) (nodes m);
+           ops := ops m; envl := envl m; jobsr := jobsr m; curlog := curlog m |}
+      else if Byte.eqb op x4f (* O  id count *) then
+        let k := numn (v 0 m) in push_node m (dropv 2 m) k (For (num (v 1 m)) (popn k m))
       else if Byte.eqb op x57 (* W  bytes *) then
         {| vals := dropv 1 m; nodes := nodes m; ops := FWrite (v 0 m) :: ops m; envl := envl m; jobsr := jobsr m; curlog := curlog m |}
       else if Byte.eqb op x53 (* S  bytes *) then
@@ -57,9 +73,9 @@ Definition step (m : mach) (ins : bytes) : mach :=
         {| vals := dropv 1 m; nodes := nodes m; ops := FFail (num (v 0 m)) :: ops m; envl := envl m; jobsr := jobsr m; curlog := curlog m |}
       else if Byte.eqb op x55 (* U  : all pending ops become one hand-written component *) then
         {| vals := vals m; nodes := Func (rev (ops m)) :: nodes m; ops := []; envl := envl m; jobsr := jobsr m; curlog := curlog m |}
-      else if Byte.eqb op x56 (* V  id value err *) then
-        {| vals := dropv 3 m; nodes := nodes m; ops := ops m;
-           envl := (num (v 2 m), (v 1 m, optn (v 0 m))) :: envl m; jobsr := jobsr m; curlog := curlog m |}
+      else if Byte.eqb op x56 (* V  pathkey id value err *) then
+        {| vals := dropv 4 m; nodes := nodes m; ops := ops m;
+           envl := (v 3 m, num (v 2 m), (v 1 m, optn (v 0 m))) :: envl m; jobsr := jobsr m; curlog := curlog m |}
       else if Byte.eqb op x7a (* z  : forget the environment *) then
         {| vals := vals m; nodes := nodes m; ops := ops m; envl := []; jobsr := jobsr m; curlog := curlog m |}
       else if Byte.eqb op x70 (* p  : drop the top program *) then
@@ -67,12 +83,13 @@ Definition step (m : mach) (ins : bytes) : mach :=
       else if Byte.eqb op x47 (* G  cancel html mode limit errid choice choice2 : a render of the top program (a Templ) *) then
         let j := match nodes m with
                  | Templ g body :: _ =>
-                     {| j_env := env_of (envl m); j_cancel := optn (v 6 m); j_guard := g; j_body := body;
+                     {| j_env := env_of (envl m); j_benv := benv_of (envl m); j_senv := nenv_of (envl m); j_cnt := nenv_of (envl m);
+                        j_cancel := optn (v 6 m); j_guard := g; j_body := body;
                         j_html := flag (v 5 m);
                         j_sink0 := {| f_mode := num (v 4 m); f_limit := numn (v 3 m); f_tripped := false; f_err := num (v 2 m) |};
                         j_choice := numn (v 1 m); j_choice2 := numn (v 0 m) |}
                  | _ =>
-                     {| j_env := env_of []; j_cancel := None; j_guard := false; j_body := []; j_html := false;
+                     {| j_env := env_of []; j_benv := benv_of []; j_senv := nenv_of []; j_cnt := nenv_of []; j_cancel := None; j_guard := false; j_body := []; j_html := false;
                         j_sink0 := {| f_mode := 0%N; f_limit := 0; f_tripped := false; f_err := 0%N |};
                         j_choice := 0; j_choice2 := 0 |}
                  end in
@@ -106,7 +123,7 @@ Definition run_all (cap : nat) (sw flusher : bool) (instrs : list bytes) : list 
   let obs := run_jobs fsink fsink_step cap sw flusher html_escape true true ([], []) (map fst js) in
   concat (map (fun p => let '(o, (j, io)) := p in
                         (* the specification: the document and the program's own first failure *)
-                        let '(d, de) := denote html_escape (j_env _ j) (j_cancel _ j) (Templ (j_guard _ j) (j_body _ j)) in
+                        let '(d, de) := denote html_escape (j_env _ j) (j_benv _ j) (j_senv _ j) (j_cnt _ j) (j_cancel _ j) (Templ (j_guard _ j) (j_body _ j)) [] in
                         [enc_res (o_err o); o_out o; enc_log (o_log o); enc_marks (o_marks o);
                          (* the specification predicate, evaluated on what the implementation did *)
                          match io with Some i => b2 (spec_okb d de (i_res i) (i_got i) (i_log i)) | None => bs "-" end;
